@@ -13,6 +13,7 @@ mod corpus;
 mod dbscen;
 mod exec;
 mod fmtchecks;
+mod metamorph;
 mod opmatrix;
 mod execchecks;
 mod values;
